@@ -38,7 +38,7 @@ func (c16) Describe() engine.Info {
 	return engine.Info{
 		Rule: "scenario = MBC1 cartridge (8 ROM pages, 4 RAM banks, RAM enabled) with random contents everywhere + FF46 write with page XX (every page 00-F1 enumerated by index, then random) + 0..3 restarts (same or other page) at random cycles of the running transfer + 0..4 source-byte writes / ROM or RAM bank switches during the transfer; OAM is read over the bus at three addresses (FE00-FE9F and FEA0-FEFF) after every cycle. " +
 			"Oracle: 162 cycles after the last start OAM holds, byte for byte, a value the source byte had during that transfer; reads of FE00-FEFF return FF from cycle 2 to 160 of a running transfer (0, 1, 161: either) and data / 00 afterwards; nothing else changes OAM. Signature = (source region, restarted?, restart phase class, source changed during transfer?)." +
-			" The LCD may be switched (or LCDC rewritten) while the transfer runs. Environment dimensions as C12. One scenario in eight (after the sweep) first stores a value F2-FF and replaces that transfer within 161 cycles by a proper one, which is judged; one in five stores into OAM cells from the CPU while the transfer runs (LCD off), aimed at the cell being copied: 162 cycles all the same. Classes dma-pointer-traffic (INC DE / DEC DE with DE inside OAM in the first cycles of the transfer, LCD on), dma-hram-routine (the CPU runs the customary routine out of high RAM; the start is taken from the bus tap), MBC3 (clock halted or running) and MBC5 cartridges.",
+			" The LCD may be switched (or LCDC rewritten) while the transfer runs. Environment dimensions as C12. One scenario in eight (after the sweep) first stores a value F2-FF and replaces that transfer within 161 cycles by a proper one, which is judged; one in five stores into OAM cells from the CPU while the transfer runs (LCD off), aimed at the cell being copied: 162 cycles all the same. Classes dma-pointer-traffic (INC DE / DEC DE with DE inside OAM in the first cycles of the transfer, LCD on), dma-hram-routine (the CPU runs the customary routine out of high RAM; the start is taken from the bus tap), MBC3 (clock halted or running) and MBC5 cartridges. A source byte that changes during the transfer may be old or new only within two cycles of its copy cycle; MBC1 cartridges of 1-2 MiB in mode 1 (0000-3FFF remapped).",
 		Assumptions:    []string{"LCD off (OAM otherwise plain) in two thirds of the scenarios; in the others the LCD is on, OAM is read only while the transfer blocks it, and the result is judged through the side-effect-free accessor; the CPU is parked in high RAM", "a source byte changed while the copy runs may be copied old or new"},
 		RequiredProbes: []string{"lcd_switched_during_transfer", "oam_read_during_transfer_in_mode2", "dma_started", "dma_restarted_while_running", "source_changed_during_transfer", "oam_read_during_transfer", "echo_source", "out_of_range_value_then_restart", "oam_store_during_transfer", "pointer_traffic_during_transfer", "cartridge_clock_halted", "dma_started_by_the_cpu_routine", "mbc1_mode1_low_window_remapped"},
 		RealComponents: realComponents, StubComponents: stubComponents,
